@@ -47,12 +47,12 @@ Proof. exact stop_valid_when_paused. Qed.
 Print Assumptions C13_stop_accepted_when_paused.
 
 Example C13_monitor_rejects :
-  holds_b ({| c_safe := []; c_overlaps := []; c_outs0 := [] |}, [ONop])
-          [{| v_flags := [true; false; false; false; false; false; true]; v_sys := Running; v_run := Some 0%nat; v_prev := None;
+  holds_b (IEng ({| c_safe := []; c_overlaps := []; c_outs0 := [] |}, [ONop]))
+          (OEng [{| v_flags := [true; false; false; false; false; false; true]; v_sys := Running; v_run := Some 0%nat; v_prev := None;
               v_outs := []; v_hw := []; v_clocks := [0; 0; 0; 0]; v_reg := []; v_uods := []; v_exe := []; v_que := [];
-              v_events := [ECrash] |}] = false
-  /\ holds_b ({| c_safe := []; c_overlaps := []; c_outs0 := [] |}, [ONop])
-          [{| v_flags := [true; false; false; false; false; false; true]; v_sys := Running; v_run := Some 0%nat; v_prev := None;
+              v_events := [ECrash] |}]) = false
+  /\ holds_b (IEng ({| c_safe := []; c_overlaps := []; c_outs0 := [] |}, [ONop]))
+          (OEng [{| v_flags := [true; false; false; false; false; false; true]; v_sys := Running; v_run := Some 0%nat; v_prev := None;
               v_outs := []; v_hw := []; v_clocks := [0; 0; 0; 0]; v_reg := []; v_uods := []; v_exe := []; v_que := [];
-              v_events := [EError] |}] = false.
+              v_events := [EError] |}]) = false.
 Proof. split; vm_compute; reflexivity. Qed.
